@@ -417,6 +417,8 @@ def expected_markers(case: dict[str, Any]) -> list[str]:
 
 
 def check(case: dict[str, Any]) -> list[tuple[str, str]]:
+    if case.get("kind") == "cli":
+        return check_cli(case)
     d = Path(tempfile.mkdtemp(prefix="vf-c15."))
     try:
         try:
@@ -553,9 +555,92 @@ def nontrivial(case: dict[str, Any]) -> bool:
 
 def shards(tier: str) -> list[dict[str, Any]]:
     if tier == "quick":
-        return [{"what": "gen", "n": 120} for _ in range(16)]
+        return [{"what": "gen", "n": 120} for _ in range(15)] + [{"what": "cli", "pick": 4}]
     g = len(grid())
-    return [{"what": "grid", "part": i, "parts": 16, "total": g} for i in range(16)] + [{"what": "gen", "n": 2500} for _ in range(8)]
+    return [{"what": "grid", "part": i, "parts": 16, "total": g} for i in range(16)] + [{"what": "gen", "n": 2500} for _ in range(8)] + \
+        [{"what": "cli", "part": i, "parts": 4} for i in range(4)]
+
+
+def check_cli(case: dict[str, Any]) -> list[tuple[str, str]]:
+    """The same statement from outside: the real `gallia` command line in a child process. The process has to end by itself,
+    and its exit status, META.json and the database entry have to agree."""
+    import subprocess
+
+    d = Path(tempfile.mkdtemp(prefix="vf-c15cli."))
+    out: list[tuple[str, str]] = []
+    server = None
+    try:
+        sock = d / "ecu.sock"
+        args = [sys.executable, "-c", "import sys; from gallia.cli.gallia import main; sys.argv[0] = 'gallia'; sys.exit(main())",
+                "primitive", "uds", "ping", "--target", f"unix-lines://{sock}", "--artifacts-base", str(d / "art"), "--no-dumpcap", "--count", "1"]
+        if case["db"] == "on":
+            args += ["--db", str(d / "db.sqlite")]
+        elif case["db"] == "garbage":
+            (d / "junk.sqlite").write_bytes(b"this is not a database\n" * 40)
+            args += ["--db", str(d / "junk.sqlite")]
+        elif case["db"] == "dir":
+            (d / "dbdir").mkdir()
+            args += ["--db", str(d / "dbdir")]
+        if case["lock"]:
+            args += ["--lock-file", str(d / "lock")]
+        if case["post_hook"] == "fail":
+            args += ["--post-hook", "exit 7"]
+        elif case["post_hook"] == "signal":
+            args += ["--post-hook", "kill -TERM $$; sleep 5"]
+        env = {k: v for k, v in os.environ.items() if not k.startswith("GALLIA_") or k == "GALLIA_VERIF"}
+        if case["ecu"]:
+            server = subprocess.Popen([sys.executable, "-c", "import sys; from gallia.cli.gallia import main; sys.argv[0] = 'gallia'; sys.exit(main())",
+                                       "script", "vecu", "rng", f"unix-lines://{sock}", "--seed", "3"], cwd=d, env=env, stdout=subprocess.DEVNULL, stderr=subprocess.DEVNULL)
+            for _ in range(200):
+                if sock.exists():
+                    break
+                time.sleep(0.05)
+        ctx = f"gallia {' '.join(a for a in args[3:])} (virtual ECU {'running' if case['ecu'] else 'absent'})"
+        try:
+            p = subprocess.run(args, cwd=d, env=env, capture_output=True, text=True, timeout=60)
+        except subprocess.TimeoutExpired:
+            return [(f"C15/cli/process-does-not-exit/db-{case['db']}", f"{ctx}: still running after 60 s")]
+        rc = p.returncode
+        exp = {0} if (case["ecu"] and case["db"] in ("off", "on")) else {70, 74}
+        if rc not in exp:
+            out.append((f"C15/cli/exit-status/{rc}", f"{ctx}: exit status {rc}, expected {sorted(exp)}; stderr tail: {p.stderr[-300:]}"))
+        metas = sorted((d / "art").glob("*/run-*/META.json"))
+        if len(metas) != 1:
+            out.append(("C15/cli/meta-json-missing", f"{ctx}: {len(metas)} META.json files"))
+        else:
+            meta = json.loads(metas[0].read_text())
+            if meta.get("exit_code") != rc:
+                out.append(("C15/cli/meta-exit-code", f"{ctx}: META.json says {meta.get('exit_code')}, the process exited with {rc}"))
+        if case["db"] == "on":
+            con = sqlite3.connect(d / "db.sqlite")
+            rows = con.execute("SELECT end_time, exit_code FROM run_meta").fetchall()
+            con.close()
+            if len(rows) != 1 or rows[0][0] is None or rows[0][1] != rc:
+                out.append(("C15/cli/db-run-meta", f"{ctx}: run_meta rows {rows}, exit status {rc}"))
+        if case["lock"]:
+            import fcntl
+
+            fd = os.open(d / "lock", os.O_RDWR | os.O_CREAT)
+            try:
+                fcntl.flock(fd, fcntl.LOCK_EX | fcntl.LOCK_NB)
+            except OSError:
+                out.append(("C15/cli/lock-not-released", ctx))
+            finally:
+                os.close(fd)
+        return out
+    finally:
+        if server is not None:
+            server.terminate()
+            try:
+                server.wait(10)
+            except Exception:  # noqa: BLE001
+                server.kill()
+        shutil.rmtree(d, ignore_errors=True)
+
+
+def cli_cases() -> list[dict[str, Any]]:
+    return [{"kind": "cli", "ecu": ecu, "db": db, "lock": lock, "post_hook": hook}
+            for ecu in (True, False) for db in ("off", "on", "garbage", "dir") for lock in (False, True) for hook in ("none", "fail", "signal")]
 
 
 def _quiet_aiosqlite_threads() -> None:
@@ -583,6 +668,21 @@ def run_shard(spec: dict[str, Any], seed: int) -> Collector:
         for b, m in res:
             col.violation(b, case, m)
 
+    if spec["what"] == "cli":
+        cases = cli_cases()
+        if "pick" in spec:
+            # quick tier: a seed-dependent handful, always with one run against a running ECU and one with a file that is no database
+            rot = seed % len(cases)
+            cases = [c for c in cases if c["ecu"] and c["db"] == "on"][:1] + [c for c in cases if c["db"] == "garbage"][:1] + (cases[rot:] + cases[:rot])[: spec["pick"] - 2]
+        else:
+            cases = cases[spec["part"]::spec["parts"]]
+            col.exhaustive_parts.append("real command line in a child process: {ECU running, absent} x db {off, on, not a database, directory} x lock x post-hook {none, failing, killed}")
+        for c in cases:
+            res = check_cli(c)
+            col.case(str(c), True, cls=f"cli/{'ecu' if c['ecu'] else 'no-ecu'}/db-{c['db']}", sample=c)
+            for b, m in res:
+                col.violation(b, c, m)
+        return col
     if spec["what"] == "grid":
         g = grid()
         for c in g[spec["part"]::spec["parts"]]:
